@@ -1,1 +1,3 @@
 pub mod c01;
+pub mod c05;
+pub mod c09;
